@@ -10,7 +10,7 @@ Exit status: 0 property held on everything explored (known findings are printed 
 KNOWN-FINDING lines), 1 at least one VIOLATION line was printed, 2 harness error
 (never accompanied by a VIOLATION line).
 """
-import fcntl, hashlib, json, os, resource, shutil, subprocess, sys, time
+import fcntl, glob, hashlib, json, os, re, resource, shutil, subprocess, sys, time
 
 VERIF = os.path.dirname(os.path.dirname(os.path.abspath(__file__)))
 REPO = os.environ.get("VERIF_REPO", "/repo")
@@ -58,13 +58,14 @@ HARNESS_PKGS = {"jsonrpc2": "internal/jsonrpc2", "mcp": "mcp", "auth": "auth", "
 
 
 def make_overlay(mode, extra_replace=None):
-    """mode: 'instr' or 'plain'. Returns overlay.json path."""
+    """mode: 'instr', 'plain' or 'race' (= plain SDK code + the E1 harness bodies, for the free-running -race pass).
+    Returns overlay.json path."""
     out = os.path.join(BUILD, mode)
     if os.path.isdir(out):
         shutil.rmtree(out)
     os.makedirs(out)
     cmd = [build_instr(), "-repo", REPO, "-out", out, "-engine", os.path.join(VERIF, "engine")]
-    if mode == "plain":
+    if mode in ("plain", "race"):
         cmd.append("-plain")
     for hdir, pkg in HARNESS_PKGS.items():
         d = os.path.join(VERIF, "harness", hdir)
@@ -76,6 +77,9 @@ def make_overlay(mode, extra_replace=None):
             dst = f"{pkg}/zz_verif_{f[:-3]}_test.go"
             src = os.path.join(d, f)
             if f.startswith("e1_"):
+                if mode == "race":
+                    cmd += ["-add", f"{dst}={src}"]
+                    continue
                 if mode != "instr":
                     continue
                 cmd += ["-add", f"{dst}={src}:instr"]
@@ -115,6 +119,7 @@ def build_test(mode, pkg, race=False, extra_replace=None):
     fcntl.flock(lock, fcntl.LOCK_EX)
     try:
         ov = make_overlay(mode, extra_replace)
+        race = race or mode == "race"
         rundir = os.path.join(BUILD, "run-%d" % os.getpid())
         os.makedirs(rundir, exist_ok=True)
         out = os.path.join(rundir, "%s-%s%s.test" % (mode, pkg.replace("/", "_"), "-race" if race else ""))
@@ -147,6 +152,10 @@ def run_part(prop, part, tier, replay=None, seed=0, known_file=None, binary=None
     race = part.get("race", False)
     binary = binary or build_test(mode, pkg, race)
     nshards = 1 if replay else min(NCPU, part.get("shards", NCPU))
+    if mode == "race":
+        if replay:
+            return [], []
+        nshards = 1
     frontier = None
     pre_results = []
     if part.get("two_phase") and not replay and nshards > 1:
@@ -185,6 +194,13 @@ def run_part(prop, part, tier, replay=None, seed=0, known_file=None, binary=None
             env["VERIF_REPLAY"] = os.path.abspath(replay)
         if frontier:
             env["VERIF_FRONTIER_IN"] = frontier
+        if mode == "race":
+            env["VERIF_FREERUN"] = str(part.get("free_runs", {}).get(tier, 20))
+            env["GOMAXPROCS"] = str(part.get("gomaxprocs", 8))
+            env["GORACE"] = "halt_on_error=0 log_path=%s.race" % outp
+            env.pop("GOMEMLIMIT", None)
+            for f in glob.glob(outp + ".race.*"):
+                os.remove(f)
         cmd = [binary, "-test.run", "^%s$" % test, "-test.count=1", "-test.timeout=0"]
         if replay:
             cmd.append("-test.v")
@@ -205,7 +221,9 @@ def run_part(prop, part, tier, replay=None, seed=0, known_file=None, binary=None
         txt = open(outp + ".log").read()
         if replay:
             sys.stdout.write(txt)
-        if os.path.exists(outp):
+        if mode == "race":
+            results.append(race_result(prop, test, outp, rc, txt, os.path.exists(outp) and json.load(open(outp)), int(env["VERIF_FREERUN"])))
+        elif os.path.exists(outp):
             results.append(json.load(open(outp)))
         else:
             crash = classify_crash(txt)
@@ -215,6 +233,78 @@ def run_part(prop, part, tier, replay=None, seed=0, known_file=None, binary=None
             else:
                 herr.append("%s shard produced no result (exit %s): %s" % (test, rc, txt[-3000:]))
     return results, herr
+
+
+HARNESS_MARKS = ("zz_verif_", "/internal/vsched/", "/internal/verifx/", "/verif/harness/", "/verif/engine/")
+
+
+def parse_races(text):
+    """Splits race-detector output into reports; returns [(top frames of the two accesses, full text)]."""
+    out = []
+    for block in text.split("WARNING: DATA RACE")[1:]:
+        block = block.split("==================")[0]
+        tops = []
+        lines = block.splitlines()
+        for i, l in enumerate(lines):
+            if re.match(r"^(Read|Write|Previous read|Previous write|Atomic|Previous atomic)", l.strip(), re.I) and " by " in l:
+                # the first source line outside the Go runtime / standard library after the header is the accessing frame
+                for m in lines[i + 1:i + 40]:
+                    m = m.strip()
+                    if not m:
+                        break
+                    if m.startswith("/") and ".go:" in m:
+                        if "/golang.org/toolchain@" in m or "/go/src/" in m or "/veriftools/go" in m:
+                            continue
+                        tops.append(m.split(" ")[0])
+                        break
+        out.append((tops[:2], "WARNING: DATA RACE" + block))
+    return out
+
+
+def race_result(prop, test, outp, rc, txt, res, nruns):
+    """The free-running -race pass: only data races whose two accesses are both in SDK code count."""
+    text = txt
+    for f in sorted(glob.glob(outp + ".race.*")):
+        text += open(f, errors="replace").read()
+    sdk, harness_side = {}, 0
+    for tops, block in parse_races(text):
+        if len(tops) < 2 or any(any(h in t for h in HARNESS_MARKS) for t in tops):
+            harness_side += 1
+            continue
+        key = " / ".join(sorted(re.sub(r"^.*?/(mcp|internal|auth|jsonrpc|oauthex)/", r"\1/", t) for t in tops))
+        sdk.setdefault(key, block)
+    scen_name = "free-race/" + test
+    notes = []
+    scenarios = []
+    if res:
+        for s in res.get("scenarios") or []:
+            s["name"] = "free-race/" + s["name"]
+            s["outcomes"] = {"free-running (-race), verdicts not evaluated": s.get("execs", 1)}
+            s["execs"] = s.get("steps", nruns) // max(1, s.get("execs", 1))  # one free run = one execution (steps are summed over repeated reads of the cached outcome)
+            s["choice_nodes"] = 0
+            scenarios.append(s)
+    else:
+        notes.append("the free-running worker ended abnormally (exit %s); its race reports up to that point were read" % rc)
+        scenarios.append({"name": scen_name, "execs": 0, "steps": 0, "outcomes": {}, "complete": True})
+    viols = []
+    kf = known_file()
+    for key, block in sorted(sdk.items()):
+        sig = "data-race " + key
+        os.makedirs(os.path.join(VERIF, "replays"), exist_ok=True)
+        rp = os.path.join(VERIF, "replays", "%s-race-%s.txt" % (prop, hashlib.sha1(sig.encode()).hexdigest()[:12]))
+        open(rp, "w").write(block)
+        known = False
+        if kf:
+            for line in open(kf):
+                if line.startswith("known:") and ("property=%s " % prop) in line and ("sig=" + sig) in line:
+                    known = True
+        viols.append({"scenario": scen_name, "sig": sig, "known": known, "replay": rp,
+                      "msg": "the race detector reports unsynchronised accesses in SDK code during a free-running execution of this property's harness "
+                             "(the controlled scheduler assumes data-race freedom between its scheduling points):\n" + block[:1500]})
+    return {"scenarios": scenarios, "violations": viols,
+            "extra": {"race_pass_free_runs": sum(s["execs"] for s in scenarios), "race_pass_sdk_races": len(sdk),
+                      "race_pass_reports_with_a_harness_side_access_ignored": harness_side,
+                      **({"race_pass_notes": "; ".join(notes)} if notes else {})}}
 
 
 def classify_crash(txt):
